@@ -271,60 +271,92 @@ def check_site(chk, site, options):
     return n
 
 
+def _literal_names(fn, expr):
+    """a literal list/tuple of strings, given directly or through a local / module-level name"""
+    if isinstance(expr, (ast.List, ast.Tuple)):
+        vals = [const_value(e) for e in expr.elts]
+        if vals and all(isinstance(v, str) for v in vals):
+            return vals
+        return None
+    if isinstance(expr, ast.Name):
+        defs = _assignments(fn, expr.id)
+        if len(defs) == 1:
+            return _literal_names(fn, defs[0])
+        if not defs and expr.id in fn.mod.toplevel_assign:
+            return _literal_names(fn, fn.mod.toplevel_assign[expr.id])
+    return None
+
+
 def literal_option_loop(fn):
-    """find   for k in [<str>, ...]: [if k in SRC:] DST[k] = SRC[k]
-    returns (names, dst local name, src expr text, loop node) or raises"""
+    """find   for k in <names>: [if k in SRC:] DST[k] = SRC[k]
+       or     DST = {k: SRC[k] for k in <names> [if k in SRC]}
+    where <names> is a literal list/tuple of strings (possibly through a local or module constant).
+    returns (names, dst local name, src expr, node, form) or raises"""
     found = []
     for n in walk_local(fn.node):
-        if not isinstance(n, ast.For) or not isinstance(n.iter, (ast.List, ast.Tuple)):
-            continue
-        vals = [const_value(e) for e in n.iter.elts]
-        if not vals or not all(isinstance(v, str) for v in vals):
-            continue
-        if not isinstance(n.target, ast.Name):
-            continue
-        k = n.target.id
-        copies = []
-        other = []
-        for st in n.body:
-            for s in walk_stmt(st):
-                if isinstance(s, ast.Assign):
-                    t = s.targets[0]
-                    ok = (
-                        len(s.targets) == 1
-                        and isinstance(t, ast.Subscript)
-                        and isinstance(t.value, ast.Name)
-                        and isinstance(t.slice, ast.Name)
-                        and t.slice.id == k
-                        and isinstance(s.value, ast.Subscript)
-                        and isinstance(s.value.slice, ast.Name)
-                        and s.value.slice.id == k
-                    )
-                    if ok:
-                        copies.append((t.value.id, s.value.value))
-                    else:
-                        other.append(s)
-        if copies:
-            found.append((vals, copies, other, n))
+        if isinstance(n, ast.For) and isinstance(n.target, ast.Name):
+            vals = _literal_names(fn, n.iter)
+            if vals is None:
+                continue
+            k = n.target.id
+            copies = []
+            other = []
+            for st in n.body:
+                for s in walk_stmt(st):
+                    if isinstance(s, ast.Assign):
+                        t = s.targets[0]
+                        ok = (
+                            len(s.targets) == 1
+                            and isinstance(t, ast.Subscript)
+                            and isinstance(t.value, ast.Name)
+                            and isinstance(t.slice, ast.Name)
+                            and t.slice.id == k
+                            and isinstance(s.value, ast.Subscript)
+                            and isinstance(s.value.slice, ast.Name)
+                            and s.value.slice.id == k
+                        )
+                        if ok:
+                            copies.append((t.value.id, s.value.value))
+                        else:
+                            other.append(s)
+            if copies:
+                found.append((vals, copies, other, n, "loop"))
+        elif isinstance(n, ast.Assign) and len(n.targets) == 1 and isinstance(n.targets[0], ast.Name) and isinstance(n.value, ast.DictComp):
+            dc = n.value
+            if len(dc.generators) != 1 or not isinstance(dc.generators[0].target, ast.Name):
+                continue
+            g = dc.generators[0]
+            vals = _literal_names(fn, g.iter)
+            if vals is None:
+                continue
+            k = g.target.id
+            if isinstance(dc.key, ast.Name) and dc.key.id == k and isinstance(dc.value, ast.Subscript) and isinstance(dc.value.slice, ast.Name) and dc.value.slice.id == k:
+                src = dc.value.value
+                # the only admissible filter is `k in SRC`
+                other = [c for c in g.ifs if norm_text(c) != "%s in %s" % (k, norm_text(src))]
+                found.append((vals, [(n.targets[0].id, src)], other, n, "comp"))
     if len(found) != 1:
-        raise AnalysisError("%s: expected exactly one literal option-name loop, found %d" % (fn.key, len(found)))
-    vals, copies, other, loop = found[0]
+        raise AnalysisError("%s: expected exactly one literal option-name copy (loop or dict comprehension), found %d" % (fn.key, len(found)))
+    vals, copies, other, node, form = found[0]
     if other or len(copies) != 1:
         raise AnalysisError(
-            "%s: option loop is not of the shape `for k in [..]: DST[k] = SRC[k]` (%s)"
+            "%s: option copy is not of the shape `for k in [..]: DST[k] = SRC[k]` / `{k: SRC[k] for k in [..] if k in SRC}` (%s)"
             % (fn.key, "; ".join(norm_text(o) for o in other) or "%d copies" % len(copies))
         )
     dst, src = copies[0]
-    return vals, dst, src, loop
+    return vals, dst, src, node, form
 
 
 def check_list_forwarder(repo, res, chk, key, entry, options):
     fn = repo.fn(key)
-    names, dst, src, loop = literal_option_loop(fn)
-    # DST must start empty and be splatted into the entry point
+    names, dst, src, loop, form = literal_option_loop(fn)
+    # DST must start empty (or be the comprehension itself) and be splatted into the entry point
     inits = _assignments(fn, dst)
-    if len(inits) != 1 or not (isinstance(inits[0], ast.Dict) and not inits[0].keys):
-        raise AnalysisError("%s: option dict `%s` is not initialised once as {}" % (key, dst))
+    if form == "loop":
+        if len(inits) != 1 or not (isinstance(inits[0], ast.Dict) and not inits[0].keys):
+            raise AnalysisError("%s: option dict `%s` is not initialised once as {}" % (key, dst))
+    elif len(inits) != 1:
+        raise AnalysisError("%s: option dict `%s` is assigned more than once" % (key, dst))
     splat_calls = []
     for n in walk_local(fn.node):
         if isinstance(n, ast.Call):
